@@ -11,6 +11,13 @@ Deciding method
     (Python-looking payloads in every field position of documents of all 8 input formats) runs in a
     subprocess under `sys.addaudithook`; compile/exec/import/open-for-writing/process events caused by
     the input, new files in the working directory and new entries of sys.modules are failures.
+    NUMERIC fields (cell parameters, coordinates, occupancies, displacement parameters, counts, scale factors) of
+    every format get their own payloads: arithmetic-only ratios (`1/3`, `(1)/3`, `2**-1/1`: evaluating them has no
+    effect but the compilation itself), and harmless observable calls (a directory / a file in the temporary working
+    directory, an import) written without one ASCII letter - identifiers in mathematical / full-width alphabets,
+    which the Python compiler NFKC-normalises to `__import__`, `chr`, `mkdir`, `open`.  A compile event counts as
+    caused by the input when the compiled text is a piece of the input or contains a whole field of it, whatever the
+    parse returns afterwards (a format error does not undo the compilation).
 
 The worker part of this file runs in a fresh interpreter (`python -m harness.c17`).
 """
@@ -39,11 +46,27 @@ WATCH_PREFIX = ("os.system", "os.exec", "os.posix_spawn", "os.spawn", "os.fork",
 def _worker(job):
     import re as _re
     _rx_tok = _re.compile(r"[A-Za-z_][A-Za-z0-9_]{1,}")
-    state = {"armed": False, "events": [], "tokens": set(), "benign": 0}
+    import unicodedata as _ud
+    state = {"armed": False, "events": [], "tokens": set(), "benign": 0, "learn": False, "text": "", "fields": []}
     allowed_sources = set()
+    templates = set()
+    forbidden_modules = set(job.get("forbidden_modules", ()))
+    _rx_field = _re.compile(r"'[^'\n]*'|\"[^\"\n]*\"|\S+")
+
+    def input_fields(text):
+        """fields of the input: whitespace-separated words and quoted strings, with and without quotes / a trailing comma;
+        three characters at least; not part of a code template the library compiles for valid documents anyway"""
+        out = set()
+        for w in set(_rx_field.findall(text)) | set(text.split()):
+            for v in (w, w.strip("'\""), w.rstrip(","), w.strip("'\"").strip()):
+                if len(v) >= 3 and not any(v in t for t in templates):
+                    out.add(v)
+        return sorted(out, key=lambda v: (-len(v), v))
 
     def hook(event, args):
         if not state["armed"]:
+            if state["learn"] and event == "compile" and isinstance(args[0], str) and len(templates) < 10000:
+                templates.add(args[0])      # code templates the library compiles for valid documents (warm-up)
             return
         try:
             if event == "compile":
@@ -55,6 +78,21 @@ def _worker(job):
                 fname = args[1] if isinstance(args[1], str) else ""
                 if fname.endswith(".py") and os.path.isfile(fname) and (fname.startswith(job["src"]) or fname.startswith(sys.prefix) or fname.startswith(sys.base_prefix)):
                     return      # the import system compiling a module source (lazy import; judged by the `import` event and sys.modules)
+                # text of the input handed to the compiler: the compiled text IS a piece of the input, or contains a whole
+                # field of it (whatever the outcome of the parse is - a format error afterwards does not undo the compilation)
+                if isinstance(src, str) and src not in templates:
+                    bare = src.strip()
+                    hit = None
+                    if bare and bare in state["text"]:
+                        hit = bare
+                    else:
+                        for f_ in state["fields"]:
+                            if f_ in src:
+                                hit = f_
+                                break
+                    if hit is not None:
+                        state["events"].append(["compile", repr(src)[:200], repr(args[1])[:80], "input text compiled: %r" % hit[:80]])
+                        return
                 # library-internal code templates (collections.namedtuple in PyCifRW) are not caused by the input:
                 # an event counts when the compiled text shares an identifier-like token with the input
                 txt = src if isinstance(src, str) else repr(src)
@@ -101,6 +139,7 @@ def _worker(job):
     # support for the allow-list reason of P_cif._get_atom_setters: the table only names _tr_* methods
     setters_ok = all(isinstance(v, str) and v.startswith("_tr_") and callable(getattr(P_cif, v, None)) for v in P_cif._atom_setters.values())
     # warm-up: lazy imports, lookup tables
+    state["learn"] = True
     for d in job["warmup"]:
         try:
             s = Structure()
@@ -128,27 +167,48 @@ def _worker(job):
 
     _BASIC = (bool, int, float, str, bytes, complex, type(None))
 
+    memo = {}       # digests of one snapshot, by object identity (one object has one value at one instant)
+
     def dg(v, depth):
         """structural digest: containers by content, library objects by identity + scalar attributes, the rest by identity"""
         t = type(v)
         if t in _BASIC:
             return repr(v)
         if t in (list, tuple):
-            return (t.__name__, len(v), id(v)) if depth <= 0 else (t.__name__, tuple(dg(x, depth - 1) for x in v))
+            if depth <= 0:
+                return (t.__name__, len(v), id(v))
+            key = ("c", id(v), depth)
+            r = memo.get(key)
+            if r is None:
+                r = memo[key] = (t.__name__, tuple(dg(x, depth - 1) for x in v))
+            return r
         if t in (set, frozenset):
             return (t.__name__, len(v)) if depth <= 0 else (t.__name__, tuple(sorted(repr(dg(x, depth - 1)) for x in v)))
         if isinstance(v, dict):
             if depth <= 0:
                 return ("dict", len(v), id(v))
-            return ("dict", tuple(sorted(((repr(dg(k, 1)), dg(x, depth - 1)) for k, x in list(v.items())), key=lambda kv: kv[0])))
+            key = ("c", id(v), depth)
+            r = memo.get(key)
+            if r is None:
+                r = memo[key] = ("dict", tuple(sorted(((repr(dg(k, 1)), dg(x, depth - 1)) for k, x in list(v.items())), key=lambda kv: kv[0])))
+            return r
         if isinstance(v, numpy.ndarray):
-            return ("ndarray", v.shape, hash(v.tobytes()))
+            key = ("a", id(v))
+            r = memo.get(key)
+            if r is None:
+                r = memo[key] = ("ndarray", v.shape, hash(v.tobytes()))
+            return r
         if getattr(t, "__module__", "").startswith("diffpy.structure") and hasattr(v, "__dict__") and depth > 0:
-            return (t.__name__, id(v), tuple(sorted((k, dg(x, 0) if type(x) not in _BASIC else repr(x)) for k, x in vars(v).items())))
+            key = ("o", id(v))
+            r = memo.get(key)
+            if r is None:
+                r = memo[key] = (t.__name__, id(v), tuple(sorted((k, dg(x, 0) if type(x) not in _BASIC else repr(x)) for k, x in vars(v).items())))
+            return r
         return (t.__name__, id(v))
 
     def snapshot():
         snap = {}
+        memo.clear()
         for name, mod in list(sys.modules.items()):
             if mod is None or not name.startswith("diffpy.structure"):
                 continue
@@ -174,9 +234,12 @@ def _worker(job):
                                                              for k, x in vars(_g).items()))
             _ops = getattr(_g, "symop_list", None)
             if isinstance(_ops, list):
-                snap[_nm + ".symops"] = (id(_ops), len(_ops), tuple(
-                    (id(o), id(o.R), o.R.tobytes(), id(o.t), o.t.tobytes()) if hasattr(o, "R") and hasattr(o.R, "tobytes") else (id(o), repr(o))
-                    for o in _ops))
+                try:
+                    _t = tuple([(id(o), id(o.R), o.R.tobytes(), id(o.t), o.t.tobytes()) for o in _ops])
+                except AttributeError:      # something that is not a SymOp with array parts
+                    _t = tuple((id(o), id(o.R), o.R.tobytes(), id(o.t), o.t.tobytes()) if hasattr(o, "R") and hasattr(o.R, "tobytes") and hasattr(o, "t")
+                               and hasattr(o.t, "tobytes") else (id(o), repr(o)) for o in _ops)
+                snap[_nm + ".symops"] = (id(_ops), len(_ops), _t)
             else:
                 snap[_nm + ".symops"] = repr(type(_ops))
         snap["diffpy.structure.spacegroups.SpaceGroupList.len"] = (id(_sgs.SpaceGroupList), len(_sgs.SpaceGroupList))
@@ -208,6 +271,7 @@ def _worker(job):
         snap["gc.isenabled"] = gc.isenabled()
         snap["sys.gettrace"] = id(sys.gettrace())
         snap["sys.getprofile"] = id(sys.getprofile())
+        memo.clear()
         return snap
 
     def snap_diff(a, b):
@@ -230,6 +294,7 @@ def _worker(job):
                 out.append(k + " (deleted)")
         return sorted(out)
 
+    state["learn"] = False
     state["snap"] = snapshot()
     import io as _io  # noqa
     stdlib = set(getattr(sys, "stdlib_module_names", ()))
@@ -239,7 +304,10 @@ def _worker(job):
     def run_item(fn, text):
         nonlocal mods, files
         state["events"] = []
-        state["tokens"] = set(_rx_tok.findall(text))
+        # identifiers of the input, also in the form the compiler reads them (NFKC: `𝐜𝐡𝐫`, `ｃｈｒ` are `chr`)
+        state["tokens"] = set(_rx_tok.findall(text)) | set(_rx_tok.findall(_ud.normalize("NFKC", text)))
+        state["text"] = text
+        state["fields"] = input_fields(text)
         state["armed"] = True
         try:
             try:
@@ -256,13 +324,14 @@ def _worker(job):
                 m = ev[1]
                 top = m.split(".")[0]
                 lazy_ok = m.startswith("diffpy.structure") or top in ("CifFile", "encodings") or (top in stdlib and top not in text)
-                if not lazy_ok:
+                if not lazy_ok or top in forbidden_modules:
                     viol.append(ev)
             else:
                 viol.append(ev)
         newmods = set(sys.modules) - mods
-        bad = sorted(m for m in newmods if not (m.startswith("diffpy.structure") or m.split(".")[0] in ("CifFile", "encodings")
-                                                 or (m.split(".")[0] in stdlib and m.split(".")[0] not in text)))
+        bad = sorted(m for m in newmods if m.split(".")[0] in forbidden_modules or not (
+            m.startswith("diffpy.structure") or m.split(".")[0] in ("CifFile", "encodings")
+            or (m.split(".")[0] in stdlib and m.split(".")[0] not in text)))
         if bad:
             viol.append(["sys.modules", bad[:6]])
         mods |= newmods
@@ -323,6 +392,160 @@ PAY = [
 ]
 # payloads usable inside one operator component: no comma, no blank, no x/y/z letter
 PAY_OP = [p for p in PAY if "," not in p and not set(p.lower()) & set("xyz ")]
+
+# modules that payloads try to import (in any spelling): never a legitimate lazy import of the library
+FORBIDDEN_MODULES = ["wave", "colorsys", "sndhdr", "cgi"]
+
+# ---- payloads for NUMERIC fields -----------------------------------------------------------------------
+# arithmetic only: nothing observable happens when such a text is evaluated, except that it was compiled
+NUM_ARITH = ["1/3", "(1)/3", "2**-1/1", "(2/3)", "-1/2", "1/3.", "[1][0]/1", "1_0/3", "+1/+3", "1//3", "3%2/1", "~1/1", "1/3+0", "1/1e0", "(1,)[0]/3",
+             ".5/1", "1/3(2)", "1/0", "''/1", "1/3#"]
+# harmless but observable calls written without any quoted name (`chr` sums), so that every letter is part of an identifier
+NUM_CALLS = [
+    "__import__(chr(111)+chr(115)).mkdir('7351')",                       # os.mkdir in the (temporary) working directory
+    "__import__(chr(119)+chr(97)+chr(118)+chr(101))",                    # import wave
+    "open(chr(80)+chr(87),chr(119)).close()",                            # creates the file PW
+]
+# alphabets whose letters NFKC-normalise to a-z: Python reads identifiers spelled with them as the ASCII names
+UNI_STYLES = {"bold": 0x1D41A, "italic": 0x1D44E, "bold-italic": 0x1D482, "sans": 0x1D5BA, "sans-bold": 0x1D5EE, "monospace": 0x1D68A,
+              "double-struck": 0x1D552, "fullwidth": 0xFF41, "fraktur": 0x1D51E, "bold-script": 0x1D4EA}
+
+
+def uni_spell(s, style):
+    """the ASCII small letters of `s` in another alphabet (the text contains no ASCII letter afterwards if it had no capitals)"""
+    import unicodedata
+
+    base = UNI_STYLES[style]
+    out = []
+    for c in s:
+        if "a" <= c <= "z":
+            u = chr(base + ord(c) - 97)
+            if unicodedata.normalize("NFKC", u) != c:       # holes of the block (italic h is U+210E)
+                u = {"h": "\u210e"}.get(c, c) if style == "italic" else c
+            out.append(u)
+        else:
+            out.append(c)
+    return "".join(out)
+
+
+def numeric_payloads(k, n_arith, n_uni, with_plain=True):
+    """payloads for the k-th numeric field: rotating through the lists so that every payload and every alphabet meets
+    fields of every kind; always at least one arithmetic ratio and one letter-free call ending in `/1`"""
+    out = []
+    for j in range(n_arith):
+        # the first one is a plain ratio (`1/3`, `(1)/3`, `2**-1/1` in turn), the others go through the rest of the list
+        out.append(("arith", NUM_ARITH[k % 3] if j == 0 else NUM_ARITH[3 + (k * (n_arith - 1) + j - 1) % (len(NUM_ARITH) - 3)]))
+    styles = sorted(UNI_STYLES)
+    forms = ["%s/1", "%s", "(%s)/1", "1/%s", "0+%s/1"]
+    for j in range(n_uni):
+        i = k * n_uni + j
+        call = NUM_CALLS[i % len(NUM_CALLS)]
+        st = styles[(i // len(NUM_CALLS)) % len(styles)]
+        form = forms[0] if j == 0 else forms[(i // 2) % len(forms)]
+        out.append(("unicode:" + st, form % uni_spell(call, st)))
+    if with_plain:
+        out.append(("plain", [PAY[0] + "/1", "1/" + PAY[2], PAY[1] + "/1"][k % 3]))
+    return out
+
+
+def is_number(tok):
+    t = tok.rstrip(",")
+    try:
+        float(t)
+        return bool(t)
+    except ValueError:
+        return False
+
+
+def put_token(line, ti, new):
+    """`line` with its ti-th whitespace-separated word replaced; a word that fits keeps the columns (fixed-column formats)"""
+    import re
+
+    m = list(re.finditer(r"\S+", line))[ti]
+    old = m.group()
+    comma = "," if old.endswith(",") and len(old) > 1 else ""
+    if len(new) + len(comma) <= len(old):
+        new = (new + comma).rjust(len(old))
+    else:
+        new = new + comma
+    return line[:m.start()] + new + line[m.end():]
+
+
+def cif_quote(p):
+    if "'" not in p:
+        return "'%s'" % p
+    if '"' not in p:
+        return '"%s"' % p
+    return "\n;%s\n;\n" % p
+
+
+CIF_BASE2 = """data_adv2
+_cell_length_a 4.1(1)
+_cell_length_b 5.2
+_cell_length_c 6.7
+_cell_angle_alpha 90
+_cell_angle_beta 101.5
+_cell_angle_gamma 90.
+_symmetry_Int_Tables_number 1
+_cell_formula_units_Z 2
+loop_
+_atom_site_label
+_atom_site_Cartn_x
+_atom_site_Cartn_y
+_atom_site_Cartn_z
+_atom_site_B_iso_or_equiv
+_atom_site_occupancy
+_atom_site_adp_type
+Zn1 0.5 1.25 2.0 0.8 1 Bani
+S1 1.5 0.25 1e-1 1.2(3) .5 Biso
+loop_
+_atom_site_aniso_label
+_atom_site_aniso_B_11
+_atom_site_aniso_B_22
+_atom_site_aniso_B_33
+_atom_site_aniso_B_12
+_atom_site_aniso_B_13
+_atom_site_aniso_B_23
+Zn1 0.8 0.9 1.0 0.1 -0.1 0.0
+"""
+
+
+def numeric_field_docs(ck, base_docs):
+    """payloads in the NUMERIC fields of every format: cell parameters, coordinates, occupancies, displacement parameters,
+    counts, scale factors ... (every whitespace-separated word that reads as a number)"""
+    quick = ck.tier == "quick"
+    docs = []
+    k = 0
+    bases = list(base_docs) + [("cif", CIF_BASE2)]
+    for fmt, text in bases:
+        lines = text.split("\n")
+        for li, line in enumerate(lines):
+            toks = line.split()
+            if fmt == "cif" and line.lstrip().startswith(("loop_", "data_", "'", '"')):
+                continue
+            for ti, tok in enumerate(toks):
+                if not (is_number(tok) or (fmt == "cif" and tok[:1].isdigit())):
+                    continue
+                if fmt == "cif" and ti == 0 and len(toks) > 1 and line.lstrip().startswith("_"):
+                    continue
+                k += 1
+                if fmt == "cif":
+                    pays = numeric_payloads(k, 2 if quick else len(NUM_ARITH), 2 if quick else 30, with_plain=True)
+                else:
+                    pays = numeric_payloads(k, 1 if quick else 6, 2 if quick else 12, with_plain=not quick or k % 4 == 0)
+                for fam, p in pays:
+                    if fmt == "cif":
+                        bare_ok = not any(c.isspace() for c in p) and p[0] not in "_#$'\"[];" and "'" not in p and '"' not in p
+                        q = p if (bare_ok and (k + len(p)) % 2) else cif_quote(p)
+                    else:
+                        if any(c.isspace() for c in p):
+                            continue
+                        q = p
+                    newline = put_token(line, ti, q)
+                    docs.append({"fmt": fmt, "text": "\n".join(lines[:li] + [newline] + lines[li + 1:]), "pos": ["numeric", li, ti],
+                                 "payload": p, "mode": "numeric:" + fam, "write": "xcfg" if fmt == "xcfg" else None})
+    return docs
+
 
 EVAL_ACCEPTS = ["2**-1", "(1)/2", "1e0", "0x1", "True", "1 if 1 else 0", "__import__('os').getcwd()", "1//2", "1*2", "abs(1)", "1_0", "1j",
                 "0b1", "-(1/2)", "1/2/3", "+-1", "--1", "1.5.2", "1/0", "1/0.0", "1/", "/2", ".", "+", "-", "1+", "1/+2", "1/-2", "1e-1",
@@ -420,6 +643,12 @@ def build_ops(ck):
     for p in PAY_OP:
         for form in ("x,y,z+%s", "x,%s,z", "%s,y,z", "x,y,1/2+%s", "x,y,%s/2", "x,y,1/%s", "x,y,z+1/2%s", "x,y,z-%s+1/4"):
             ops.append((form % p, "payload", "reject"))
+    # the same calls spelled in other alphabets (no ASCII letter, so none of them is an x/y/z term either)
+    for i, st in enumerate(sorted(UNI_STYLES)):
+        for call in NUM_CALLS[:2]:
+            p = uni_spell(call, st)
+            for form in (("x,y,z+%s", "x,y,%s/1", "%s,y,z") if not quick else (("x,y,z+%s", "x,y,%s/1", "%s,y,z")[i % 3],)):
+                ops.append((form % p, "payload-unicode", "reject"))
     for s in ["", "x", "x,y", ",", ",,", "x,,z", ",,,", "x,y,z", "X , Y , Z", "x,y,z,", "x;y;z", "x,y\n,z", "x,y,z\n", "-x,-y,-z", "x-y,x,z", "2x,y,z",
               "x2,y,z", "x1/2,y,z", "1/2x,y,z", "x/2,y,z", "x,y,z+1 2", "x,y,z+1\t", "xx,y,z", "x+x-x,y,z", "+x,+y,+z", "x,y,zz", "x,y,z" * 50]:
         comps = s.replace(" ", "").split(",")
@@ -623,6 +852,7 @@ def adversarial_docs(ck, base_docs):
                 special.append({"fmt": "xcfg", "text": t2, "pos": ["species"], "payload": "%s %s" % (mass, sym), "mode": "species", "write": "xcfg"})
                 special.append({"fmt": "auto", "text": t2, "pos": ["species"], "payload": "%s %s" % (mass, sym), "mode": "species", "write": "xcfg"})
     special += tabulated_setting_cifs(quick)
+    special += numeric_field_docs(ck, base_docs)
     # documents that make the parser RAISE (a hook or redirection must be restored on the error path too)
     for fmt in ("cif", "auto", "xcfg", "pdb", "discus", "pdffit", "xyz", "rawxyz"):
         for junk in ("garbage text 1 2 3\n", "data_x\n_cell_length_a 'unterminated\n", "", "loop_\n_a\n_b\n1\n", "\x00\x01\x02\n"):
@@ -642,7 +872,7 @@ def adversarial_docs(ck, base_docs):
         keep, per = [], {}
         for d in docs:
             k = d["fmt"]
-            if per.get(k, 0) < 90 or d["pos"] in (["symop"], ["auxiliary-name"], ["species"], ["junk"], ["valid-after-errors"]) or d["pos"][:1] in (["tabulated-setting"], ["custom-operators"]) or str(d.get("mode", "")).startswith("break-name"):
+            if per.get(k, 0) < 90 or d["pos"] in (["symop"], ["auxiliary-name"], ["species"], ["junk"], ["valid-after-errors"]) or d["pos"][:1] in (["tabulated-setting"], ["custom-operators"], ["numeric"]) or str(d.get("mode", "")).startswith("break-name"):
                 keep.append(d)
                 per[k] = per.get(k, 0) + 1
         docs = keep
@@ -826,7 +1056,9 @@ def viol_key(where, viol):
     """`global-state:<what>` for a changed piece of process state, `audit:<format>:<event>` for an audit event"""
     real = [v for v in viol if v[0] != "global-state"]
     if real:
-        return "audit:%s:%s" % (where, real[0][0])
+        # an effect outside the parser (directory, file, module, process) names the case rather than the compilation before it
+        eff = [v for v in real if v[0] not in ("compile", "exec")]
+        return "audit:%s:%s" % (where, (eff or real)[0][0])
     items = viol[0][1]
     for it in items:
         if it.startswith("diffpy.structure.spacegroups.SpaceGroupList["):
@@ -848,7 +1080,7 @@ def _run(ck, rep, ok, info, wd):
     ops = build_ops(ck)
     docs = adversarial_docs(ck, base)
     job = {"src": os.path.join(common.REPO, "src"), "cwd": wd, "warmup": [{"fmt": f, "text": t} for f, t in base],
-           "ops": [o[0] for o in ops], "docs": docs}
+           "ops": [o[0] for o in ops], "docs": docs, "forbidden_modules": FORBIDDEN_MODULES}
     res = run_parallel(job, 10 if ck.tier == "quick" else 14)
     if not res["setters_ok"]:
         ck.fail("allowlist:p_cif:_atom_setters", "P_cif._atom_setters has a value that is not the name of a _tr_* method",
@@ -919,6 +1151,14 @@ def _run(ck, rep, ok, info, wd):
             fail(viol_key(d["fmt"], viol), "parsing a %s document with %r at %r caused %r" % (d["fmt"], d["payload"][:60], d["pos"], viol[:3]),
                     {"kind": "audit", "format": d["fmt"], "text": d["text"], "write": d.get("write"), "events": viol, "outcome": real,
                      "payload": d["payload"], "position": d["pos"]})
+    lenient = {}
+    for d, (real, viol) in zip(docs, res["docs"]):
+        if str(d.get("mode", "")).startswith("numeric:") and real[0] == "ok" and not is_number(d["payload"]):
+            lenient.setdefault(d["fmt"], []).append(d["payload"])
+    if lenient:
+        ck.notes.append("numeric fields holding a number followed by other text that were read as that leading number without any effect "
+                        "(documented behaviour of the readers, e.g. p_cif.leading_float; `1.2(3)` relies on it): %r" % (
+                            {f: (len(v), min(v, key=len)) for f, v in sorted(lenient.items())},))
     ck.notes.append("compile/exec audit events not sharing any identifier with the input (library-internal templates, e.g. namedtuple): %d" % res["benign_compile_exec"])
     if other_exc:
         ck.notes.append("adversarial documents ending in an exception other than StructureFormatError (subject of C13, no effect observed): %r" % other_exc)
@@ -930,7 +1170,8 @@ def _run(ck, rep, ok, info, wd):
     ck.tie_verdict(ck.symop_tie[0], ck.symop_tie[1], "p_cif.py getSymOp, _symop_constant, symvec and the two regular expressions")
     # leftovers in the working directory = effects
     left = res.get("leftover", []) + os.listdir(wd)
-    if left:
+    attributed = {f for lst in agg.values() for _n, _w, r_, _nf in lst for ev in r_.get("events", []) if ev[0] == "new-files" for f in ev[1]}
+    if set(left) - attributed:
         ck.fail("audit:files", "files created in the working directory: %r" % left[:5], {"kind": "audit", "files": left}, no_failing_input=True)
     if not ok:
         if not any("audit:" in (json.load(open(v[0])).get("key", "")) for v in ck.violations if v[0]):
@@ -944,7 +1185,10 @@ def _run(ck, rep, ok, info, wd):
         "quotients, blanks) with the expected matrix/translation known by construction as exact fractions; %d expressions a Python evaluator accepts "
         "but the grammar rejects, each in 3 placements; %d payloads x 8 placements; structural cases. Documents: a valid document per input format "
         "(7 formats + auto) with a payload replacing / appended to every whitespace-separated field of every line, CIF operator positions, XCFG "
-        "auxiliary names (then written back). Every real call runs under sys.addaudithook in a subprocess. distinct_nontrivial = distinct "
+        "auxiliary names (then written back); every numeric field of every format (plus a second CIF with Cartesian coordinates, B values and "
+        "standard uncertainties) with arithmetic-only ratios, letter-free calls spelled in 10 NFKC-equivalent alphabets and plain payloads ending "
+        "in /1 (rotating; all of them in the thorough tier). Every real call runs under sys.addaudithook in a subprocess; a compile event whose "
+        "text is a piece of the input or contains a field of it is a failure whatever the parse returns. distinct_nontrivial = distinct "
         "(family or format, position kind, outcome kind)" % (len(EVAL_ACCEPTS), len(PAY_OP)))
     ck.coverage["documents_per_format"] = {f: sum(1 for d in docs if d["fmt"] == f) for f in sorted({d["fmt"] for d in docs})}
     ck.coverage["samples"] = [{"op": ops[0][0], "model": model.get(0), "real": res["ops"][0][0]},
@@ -957,7 +1201,9 @@ def _run(ck, rep, ok, info, wd):
                                     "DS.PyStr primitives as the reading of str/list/dict/float operations, floats read as exact fractions"]
     ck.assumptions += ["(b) shows absence of syntactic paths to sinks, not semantic non-interference; PyCifRW and numpy are outside the scan and covered by the audit hook only",
                        "model of getSymOp is ASCII-only; Unicode digits accepted by Python's \\d are exercised by the audit oracle only",
-                       "literals longer than 20 digits (float overflow to inf/nan) are not generated"]
+                       "literals longer than 20 digits (float overflow to inf/nan) are not generated",
+                       "payloads that would not terminate when evaluated (9**9**9) are not generated: a seeded evaluator is recognised by the "
+                       "compile event of a terminating text"]
 
 
 def replay(path):
@@ -977,7 +1223,8 @@ def replay(path):
     os.makedirs(wd)
     try:
         base = base_documents()
-        job = {"src": os.path.join(common.REPO, "src"), "cwd": wd, "warmup": [{"fmt": f, "text": t} for f, t in base], "ops": [], "docs": []}
+        job = {"src": os.path.join(common.REPO, "src"), "cwd": wd, "warmup": [{"fmt": f, "text": t} for f, t in base], "ops": [], "docs": [],
+               "forbidden_modules": FORBIDDEN_MODULES}
         if r.get("call") == "getSymOp":
             job["ops"] = [r["input"]]
         elif "text" in r:
